@@ -1,6 +1,7 @@
 SPECIFICATION MCSpec
 CONSTANTS Caps = {1, 2, 3}
-          Char = {97, 98}
+          Chars0 = {97, 98}
+          NulUpTo = 2
           WildArgs = FALSE
           BigCodes = {}
           WholeLen = 2
